@@ -1,4 +1,5 @@
 import FcpModel.Schema
+import FcpModel.Utf8
 /-!
 # PyCodec: model of `src/fcp/serde.py`
 
@@ -169,7 +170,7 @@ def pyDec (S : Schema) : Nat → STy → Buf → Except PyErr (Val × Buf)
   | _+1, .str, b => do
     let (n, b') ← b.readWord 32
     let (cs, b'') ← pyDecChars n b'
-    if cs.all (· < 128) then .ok (.str cs, b'') else .error .other
+    if utf8Valid cs then .ok (.str cs, b'') else .error .other
   | f+1, .struct name, b =>
     match S.getStruct name with
     | none => .error .other
